@@ -256,6 +256,11 @@ def _resolve_identifier(
             if index + 1 < total_scopes
             else ()
         )
+        if scope.weak and scope.lexical:
+            # Inside a `rec` environment the members bind each other like any
+            # rec set's: only from the outside is the environment weak.
+            members = Scope(scope, owner=scope.owner)
+            scope_chain = scope_chain[:-1] + (members,)
         if identifier.name in scope.parameters:
             raise _unbound(
                 f"{identifier.name} is a function parameter without a known value"
